@@ -242,7 +242,11 @@ func VerifC03History() {
 	// the queried path may be split between the request prefix and the path: nothing / the first element / every element
 	// in the prefix (a path with no elements of its own)
 	gp, gq := &gnmi.Path{Target: "t1"}, &gnmi.Path{Elem: qe}
-	switch verifrt.Fork("get.split", 3) {
+	split := 0
+	if verifrt.Param("getsplit") == 1 {
+		split = verifrt.Fork("get.split", 3)
+	}
+	switch split {
 	case 1:
 		gp.Elem, gq.Elem = qe[:1], qe[1:]
 	case 2:
